@@ -23,6 +23,9 @@ LEVEL_NOTE = 'Trusted: SpecBDD, z3. Bounded: enumeration methods (seeded predica
 TECHNIQUE = 'contracts on real Context methods verified by native symbolic execution + z3; bounded run-time contract evaluation for generators'
 
 
+MULTI = [{'x': 'x2', 'x2': 'x'}, {'b': 'b2', 'b2': 'b'}, {'x': 'x2', 'x2': 'x', 'b': 'b2', 'b2': 'b'}, {'x2': 'x', 'b': 'b2'}]
+
+
 def _w(name, h, sh, params=None):
     def run():
         return harness.verify(h, sh, params or {}, kind='context')
@@ -39,7 +42,7 @@ def families(tier, seed):
         out.append(_w('support', co.h_support, sh))
     sh = Shape(sys=co.CONTEXTS['twins'], name='twins')
     out.append(_w('let(rename)/replace_with_bdd', co.h_rename_replace, sh,
-                  dict(pairs=[('x', 'x2'), ('x2', 'x'), ('b', 'b2')], bool='b', mismatch=('x', 'b'))))
+                  dict(pairs=[('x', 'x2'), ('x2', 'x'), ('b', 'b2')], bool='b', mismatch=('x', 'b'), multi=MULTI)))
     ns = 6 if tier == 'quick' else 60
     for be in (None, 'autoref'):
         for cname, decl in co.CONTEXTS.items():
@@ -49,7 +52,7 @@ def families(tier, seed):
                 out.append(dict(name=f'real manager sweep [{be or "default"}] {hn} [{cname}]',
                                 run=harness.sweep(h, shc, {}, 'context', seed, ns, be), label='bounded'))
         out.append(dict(name=f'real manager sweep [{be or "default"}] let(rename)/replace_with_bdd [twins]',
-                        run=harness.sweep(co.h_rename_replace, sh, dict(pairs=[('x', 'x2'), ('x2', 'x'), ('b', 'b2')], bool='b'),
+                        run=harness.sweep(co.h_rename_replace, sh, dict(pairs=[('x', 'x2'), ('x2', 'x'), ('b', 'b2')], bool='b', multi=MULTI),
                                           'context', seed, 4 * ns, be), label='bounded'))
     n = 40 if tier == 'quick' else 400
     for cname in co.CONTEXTS:
